@@ -98,3 +98,43 @@ fn make_is_rules_succ_and_unmake_restores() {
     board.unmake(m);
     assert!(board_view(&board) == v);
 }
+
+// ---- C13: make_all_uci is all-or-nothing.  BOUNDED stand-in (list length <= 2).  The text matching of find_uci
+//      (iterator chain + format!) is replaced by a Kani stub that answers nondeterministically with an error or with
+//      ANY move that is well-formed for the current position; the real make_all_uci / make_uci / make / unmake run.
+//      Robust against a rewrite of the rollback (e.g. snapshot/restore instead of unmake). ----
+static mut STUB_OK_CALLS_LEFT: u32 = 0;
+fn stub_find_uci(b: &mut Bitboard, _uci: &str) -> Result<Move, MoveFromUciError> {
+    // the first STUB_OK_CALLS_LEFT calls succeed with an arbitrary well-formed move, the next one is rejected
+    let ok = unsafe { if STUB_OK_CALLS_LEFT > 0 { STUB_OK_CALLS_LEFT -= 1; true } else { false } };
+    if ok {
+        let v = board_view(b);
+        kani::assume(board_wf(v));
+        kani::assume(clocks_ok(v));
+        let m = Move { bits: kani::any(), mvvlva: 0 };
+        kani::assume(move_wf(v, m));
+        kani::assume(no_king_capture(v, m));
+        Ok(m)
+    } else {
+        Err(MoveFromUciError::MoveDoesNotExist(String::new()))
+    }
+}
+
+/// a list whose first k moves (k <= 1) are accepted and whose next move is rejected leaves the position as it was
+#[kani::proof]
+#[kani::stub(Bitboard::find_uci, stub_find_uci)]
+#[kani::unwind(4)]
+fn make_all_uci_all_or_nothing_len2() {
+    let v = any_pos();
+    kani::assume(board_wf(v));
+    kani::assume(clocks_ok(v));
+    let mut board = to_board(v);
+    let moves: [String; 2] = [String::new(), String::new()];
+    let k: u32 = kani::any();
+    kani::assume(k <= 1);
+    kani::cover!(k == 1 && v.turn == 1);
+    unsafe { STUB_OK_CALLS_LEFT = k; }
+    let r = board.make_all_uci(&moves[..(k as usize + 1)]);
+    assert!(r.is_err());
+    assert!(board_view(&board) == v);
+}
